@@ -3914,6 +3914,15 @@ def deinterpolate_logging_args(source: str) -> str:
             )
 
 
+def _is_free_identifier(name: str) -> bool:
+    """Can name be used as the name of a new variable, without hiding a builtin?"""
+    return (
+        name.isidentifier()
+        and name not in constants.PYTHON_KEYWORDS
+        and name not in constants.BUILTIN_FUNCTIONS
+    )
+
+
 def _may_change_item(
     mapping: ast.AST, key: ast.AST, nodes: Iterable[ast.AST], harmless_functions: Collection[str]
 ) -> bool:
@@ -3990,9 +3999,10 @@ def _keys_to_items(source: str) -> Iterable[Tuple[ast.AST, ast.AST]]:
             continue
 
         node_target_name = f"{core.unparse(value)}_{core.unparse(target)}"
-        node_target_name = re.sub("[^a-zA-Z]", "_", node_target_name)
-        if node_target_name in used_names:
+        node_target_name = re.sub(r"\W", "_", node_target_name)
+        if node_target_name in used_names or not _is_free_identifier(node_target_name):
             continue
+        used_names.add(node_target_name)  # not for another loop in the same pass either
 
         yield (
             node.generators[0].iter,
@@ -4088,9 +4098,10 @@ def _for_keys_to_items(source: str) -> Iterable[Tuple[ast.AST, ast.AST]]:
             continue
 
         node_target_name = f"{core.unparse(value)}_{core.unparse(target)}"
-        node_target_name = re.sub("[^a-zA-Z]", "_", node_target_name)
-        if node_target_name in used_names:
+        node_target_name = re.sub(r"\W", "_", node_target_name)
+        if node_target_name in used_names or not _is_free_identifier(node_target_name):
             continue
+        used_names.add(node_target_name)  # not for another loop in the same pass either
 
         yield (
             node.iter,
